@@ -79,6 +79,9 @@ pub struct Plan {
     /// queries[filler_from..] are filler texts over member names that occur in no document
     #[serde(default)]
     pub filler_from: Option<usize>,
+    /// (client, operation, KiB): operations executed that much deeper in the caller's stack
+    #[serde(default)]
+    pub deep_stack: Vec<(usize, usize, usize)>,
 }
 
 #[derive(Clone, Debug, Serialize, Deserialize)]
@@ -293,6 +296,21 @@ fn exec_op(w: &World, op: &Op) -> (usize, usize, String) {
     }
 }
 
+/// Runs `f` about `kib` KiB deeper in the stack (a caller that reaches the library from the bottom
+/// of its own recursion).
+#[inline(never)]
+fn at_depth<R>(kib: usize, f: &mut dyn FnMut() -> R) -> R {
+    if kib == 0 {
+        return f();
+    }
+    let mut pad = [0u8; 16 * 1024];
+    pad[kib % 1024] = 1;
+    let pad = std::hint::black_box(&mut pad);
+    let r = at_depth(kib.saturating_sub(16), f);
+    std::hint::black_box(pad[0]);
+    r
+}
+
 fn run_client_op(w: &Arc<World>, c: usize, j: usize) {
     let op = w.plan.clients[c][j].clone();
     sched::with_ctx(|x| {
@@ -307,7 +325,8 @@ fn run_client_op(w: &Arc<World>, c: usize, j: usize) {
     });
     let w2 = w.clone();
     let opc = op.clone();
-    let res = std::panic::catch_unwind(std::panic::AssertUnwindSafe(move || exec_op(&w2, &opc)));
+    let depth_kib = w.plan.deep_stack.iter().find(|(cc, jj, _)| *cc == c && *jj == j).map(|(_, _, k)| *k).unwrap_or(0);
+    let res = std::panic::catch_unwind(std::panic::AssertUnwindSafe(move || at_depth(depth_kib, &mut || exec_op(&w2, &opc))));
     let aborted_before = sched::with_ctx(|x| {
         x.in_op = false;
         x.aborted_before
@@ -407,7 +426,7 @@ pub fn execute(plan: Plan, full: bool) -> RunResult {
         let w = w.clone();
         let sch = sch.clone();
         let tu = threads_used.clone();
-        handles.push(std::thread::spawn(move || {
+        handles.push(std::thread::Builder::new().stack_size(16 << 20).spawn(move || {
             let repr = w.plan.repr;
             if sim_repr(repr) {
                 simdoc::set_personality(Personality(repr - 1));
@@ -422,7 +441,7 @@ pub fn execute(plan: Plan, full: bool) -> RunResult {
                     let ctx = sched::with_ctx(|x| Ctx { sched: x.sched.clone(), id: x.id, op: x.op, in_op: false, yields_in_op: 0, aborted_before: x.aborted_before, site_counts: [0; sched::MAX_SITES] }).unwrap();
                     let w2 = w.clone();
                     let tu2 = tu.clone();
-                    let back = std::thread::spawn(move || {
+                    let back = std::thread::Builder::new().stack_size(16 << 20).spawn(move || {
                         if sim_repr(w2.plan.repr) {
                             simdoc::set_personality(Personality(w2.plan.repr - 1));
                         }
@@ -431,6 +450,7 @@ pub fn execute(plan: Plan, full: bool) -> RunResult {
                         run_client_op(&w2, c, j);
                         sched::with_ctx(|x| x.aborted_before).unwrap_or(false)
                     })
+                    .expect("harness: spawn")
                     .join()
                     .expect("harness: op thread died");
                     sched::with_ctx(|x| x.aborted_before = back);
@@ -440,7 +460,7 @@ pub fn execute(plan: Plan, full: bool) -> RunResult {
             }
             sched::clear_ctx();
             sch.finish(c);
-        }));
+        }).expect("harness: spawn"));
     }
     sch.start();
     sch.wait_done();
@@ -874,13 +894,15 @@ pub fn gen_corpus_with(seed: u64, n_fam: usize, q_per_fam: usize, adv: bool) -> 
             let e20 = "é".repeat(20);
             let ab20 = "ab".repeat(20);
             let j14 = "日本".repeat(7);
-            for t in [mk(600, &e20, &ab20), mk(1100, &ab20, &e20), mk(130, &j14, &format!("{}xx", "ж".repeat(20)))] {
+            let big5k = format!("{}tail", "lorem ipsum ".repeat(420));
+            let big12k = format!("head{}", "x-y ".repeat(3000));
+            for t in [mk(600, &e20, &ab20), mk(1100, &ab20, &e20), mk(130, &j14, &format!("{}xx", "ж".repeat(20))), mk(20, &big5k, "ab"), mk(20, &big12k, &big5k)] {
                 contents.push(t);
                 fam.push(contents.len() - 1);
             }
             let mut fq = vec![];
             for q in ["$.huge[?@ > 3]", "$.huge[?@ == 0]", "$.huge[::50]", "$.huge[-1]", "$.huge[512]", "$.huge[?@ == 's1']", "$[?length(@) == 20]", "$[?length(@) > 30]", "$..[?length(@) == 40]",
-                      "$[?length(@.s) == 40]", "$.u[?length(@) <= 22]", "$.huge[100:140]", "$.huge[?match(@, 's.')]", "$..s", "$[?count(@.huge[*]) > 512]", "$.wide.*", "$.wide[?@ == 3]", "$.wide.k64", "$.wide['k1','k70','k2']", "$.wide..*", "$[?count(@.*) > 64]"] {
+                      "$[?length(@.s) == 40]", "$.u[?length(@) <= 22]", "$.huge[100:140]", "$.huge[?match(@, 's.')]", "$..s", "$[?count(@.huge[*]) > 512]", "$.wide.*", "$.wide[?@ == 3]", "$.wide.k64", "$.wide['k1','k70','k2']", "$.wide..*", "$[?count(@.*) > 64]", "$[?search(@, 'tail')]", "$[?match(@, 'ab')]", "$..[?search(@, 'a')]", "$[?match(@.s, 'ab')]", "$[?length(@) > 4096]", "$.u[?search(@, 'ipsum')]"] {
                 queries.push(q.to_string());
                 fq.push(queries.len() - 1);
                 q_other_family.push(f);
@@ -1244,6 +1266,15 @@ pub fn gen_plan_opt(c: &Corpus, run_seed: u64, allow_stress: bool) -> (Plan, Pla
         }
     }
     let thread_per_op = rng.chance(1, 8);
+    // one run in ten makes a few calls from deep inside the caller's own stack (0.25 - 3 MiB down)
+    let mut deep_stack = vec![];
+    if rng.chance(1, 10) {
+        for _ in 0..(1 + rng.below(4)) {
+            let cl = rng.below(n_clients);
+            let j = rng.below(clients[cl].len());
+            deep_stack.push((cl, j, *rng.pick(&[256usize, 1200, 1600, 3000])));
+        }
+    }
     let plan = Plan {
         seed: derive(run_seed, "sched", 0),
         repr,
@@ -1258,6 +1289,7 @@ pub fn gen_plan_opt(c: &Corpus, run_seed: u64, allow_stress: bool) -> (Plan, Pla
         thread_per_op,
         schedule: None,
         filler_from: if stress { Some(n_normal_q) } else { None },
+        deep_stack,
     };
     // fillers select nothing whatever the document (their names occur nowhere), so they need no cold
     // process each; a sample of them is computed cold anyway, to check exactly that assumption
@@ -1411,6 +1443,7 @@ fn still_fails(plan: &Plan, table: &ColdTable, class: &str, kind: &str) -> Optio
 fn remove_op(plan: &Plan, c: usize, from: usize, to: usize) -> Plan {
     let mut p = plan.clone();
     p.clients[c].drain(from..to);
+    p.deep_stack = plan.deep_stack.iter().filter_map(|(cc, j, k)| if *cc != c { Some((*cc, *j, *k)) } else if *j >= from && *j < to { None } else if *j >= to { Some((*cc, j - (to - from), *k)) } else { Some((*cc, *j, *k)) }).collect();
     // faults refer to op indices: shift or drop
     p.faults = plan
         .faults
@@ -1433,6 +1466,7 @@ fn remove_op(plan: &Plan, c: usize, from: usize, to: usize) -> Plan {
 fn remove_client(plan: &Plan, c: usize) -> Plan {
     let mut p = plan.clone();
     p.clients.remove(c);
+    p.deep_stack = plan.deep_stack.iter().filter(|(cc, _, _)| *cc != c).map(|(cc, j, k)| (if *cc > c { cc - 1 } else { *cc }, *j, *k)).collect();
     p.faults = plan.faults.iter().filter(|f| f.c != c).map(|f| Fault { c: if f.c > c { f.c - 1 } else { f.c }, op: f.op, nth: f.nth, site: f.site }).collect();
     p
 }
